@@ -63,3 +63,40 @@ def check(ctx, report, rule, names):
                   "the scanner finds the planted construct in probe::positive::%s (%d hit(s))" % (fn, len(hits)) if len(hits) >= need else
                   "the scanner does not find the planted construct in probe::positive::%s (%d hit(s), need %d): the zero-count rule is vacuous" % (fn, len(hits), need),
                   site=bs[0].loc(), config="probe")
+
+
+def engine(ctx, report, rule):
+    """Self-test of the structured evaluation on every run that uses it in depth: the spelling pairs of
+    probe/src/equiv.rs.  Equivalent spellings must tabulate identically, inequivalent ones must not - otherwise the
+    verdicts of the rules built on the evaluation mean nothing."""
+    from .sem import Evaluator
+    from .semcanon import canonical
+    try:
+        f = _probe(ctx)
+    except Exception as e:
+        report.note("%s: engine self-test skipped, probe crate does not build against this tree: %s" % (rule, str(e)[-200:]))
+        return
+    groups = {}
+    for b in f.bodies.values():
+        q = b.qname
+        if q.startswith("shred_probe::equiv::") and not b.is_closure:
+            n = q.rsplit("::", 1)[1]
+            if n[:3] in ("eq_", "ne_") and len(n) > 2 and n[-2] == "_":
+                groups.setdefault(n[:-2], {})[n[-1]] = b
+    for g in sorted(groups):
+        forms = []
+        err = None
+        for k, b in sorted(groups[g].items()):
+            ev = Evaluator(f)
+            try:
+                forms.append(canonical(ev, ev.eval(b)))
+            except Exception as e:
+                err = "%s: %s" % (type(e).__name__, e)
+        same = not err and all(v == forms[0] for v in forms)
+        want = g.startswith("eq_")
+        report.ob(rule, "ENGINE/%s" % g, (same == want) and not err,
+                  ("%d spellings tabulate identically" % len(forms)) if (want and same) else
+                  ("the spellings tabulate differently, as they must" if (not want and not same) else
+                   (err or ("equivalent spellings tabulate differently" if want else "inequivalent spellings tabulate identically: the evaluation loses a distinction"))),
+                  config="probe")
+    report.floor(rule, "ENGINE spelling groups", len(groups), 20, config="probe")
